@@ -226,7 +226,12 @@ def run_cases(mod, pid, tier, seed, ncases, violations, stats, samples, notes):
         v = {"kind": "property", "what": "specification checker(s) %s reject the implementation's output" % which,
              "case": mod.describe(c), "impl": mod.describe_out(out), "failing_input": True,
              "model_agrees": i not in agree_fail}
-        kc = mod.known_class(c, out) if hasattr(mod, "known_class") else None
+        kc = None
+        if hasattr(mod, "known_class"):
+            try:
+                kc = mod.known_class(c, out, which)
+            except TypeError:
+                kc = mod.known_class(c, out)
         if kc:
             v["known_class"] = kc
         add_diag(mod, pid, coq_cases[i], v)
